@@ -16,7 +16,7 @@ KEYS = [b"x", b"y", b"z", b"az", b"bY"]       # az / bY: equal djb2 hashes
 def build_by_setters(rng, o, entries, tagv):
     cmds = [rng.choice(["newini %d" % o, "newkf %d 58 59" % o, "newempty %d" % o])]
     for n, (g, k) in enumerate(entries):
-        cmds.append("set %d string %s %s %s 0" % (o, enc(g), enc(k), enc(tagv + b"%d" % n)))
+        cmds.append("set %d string %s %s %s 0" % (o, enc(g), enc(k), enc(b"" if rng.random() < 0.12 else tagv + b"%d" % n)))
     return cmds
 
 def build_by_file(rng, o, entries, tagv):
@@ -26,7 +26,7 @@ def build_by_file(rng, o, entries, tagv):
             if g is None: continue          # a file cannot return to group-less
             lines.append(b"[" + g + b"]"); cur = g
         r = rng.random()
-        lines.append(k if r < 0.1 else k + b"=" if r < 0.2 else k + b"=" + tagv + b"%d" % n)
+        lines.append(k if r < 0.1 else k + b"=" if r < 0.2 else k + b'=""' if r < 0.27 else k + b"= " if r < 0.32 else k + b"=" + tagv + b"%d" % n)       # no value / NULL / the empty string (two spellings) / text
     return [gens.parse_cmd(o, b"/m/f%d.conf" % o, b"\n".join(lines) + (b"\n" if lines else b""), b"=", b"#")]
 
 def build_by_layered_read(rng, o, entries, tagv):
